@@ -54,6 +54,10 @@ HAND = [
 ]
 
 
+def has_tuple_type(layers):
+    return any(p.get('ty') == 'Number' for l in layers for o in l['fns'] for p in o['params'])
+
+
 def gen_family(rng):
     shape = rng.choice(['lattice', 'lattice', 'lattice', '1below2', 'lazy-mix', 'nk-mix', 'general', 'tuple-mix'])
     arity = rng.choice([1, 2, 2, 3])
@@ -220,7 +224,7 @@ def run_family(case, drv, rng, tier, hist=None):
         if len(s) > 1:
             outs = sorted({str(r.get('err', r.get('id'))) for _, r in s.values()})
             key = 'spec-tuple-typeerror' if 'TypeError' in outs and set(outs) <= {'TypeError', 'Ambiguous'} \
-                else 'order-dependent'
+                and has_tuple_type(case['layers']) else 'order-dependent'
             what = '; '.join('order %r -> %s log %r' % (o, r.get('err', r.get('id')), r['log'])
                              for o, r in list(s.values())[:3])
             fails.append(('oracle', key, 'call %d has %d outcomes across %d enumeration orders: %s' % (
@@ -294,7 +298,7 @@ def subprocess_part(cases, nworkers, res, hist):
             if len(keys) > 1:
                 outsn = sorted({str(o[ci][k].get('err', o[ci][k].get('id'))) for o in outs})
                 key = 'spec-tuple-typeerror' if 'TypeError' in outsn and set(outsn) <= {'TypeError', 'Ambiguous'} \
-                    else 'order-dependent'
+                    and has_tuple_type(case['layers']) else 'order-dependent'
                 res.fail('oracle', key, 'set-backed contexts: call %d resolves differently in different processes: %r' % (
                     k, outsn), dict(layers=case['layers'], calls=case['calls'], mode='subprocess'))
 
@@ -303,7 +307,7 @@ def run(env, res):
     drv = env['driver']
     tier = env['tier']
     rng = common.make_rng(env['seed'], 'C06')
-    n_fam = 2500 if tier == "quick" else 30000
+    n_fam = 2500 if tier == "quick" else 24000
     res.rule = ('overload families of 1-2 layers with 2-6 overloads of equal arity over the lattice Base>L,R>D (+ shapes: '
                 'one-below-two-incomparable, lazy/eager mixes, no_kwargs mixes with keyword calls, general smart types, '
                 'tuple/class mixes), 2 calls each with arguments that satisfy several overloads at once; every call under '
@@ -341,6 +345,8 @@ def run(env, res):
             if (kind, key) in done:
                 continue
             done.add((kind, key))
+            if key == 'spec-tuple-typeerror' and any(f.key == key for f in res.failures):
+                continue                # the recorded finding: one shrunk instance is enough
             if len(res.failures) < 5:
                 small = shrink(case, drv, rng, tier, kind, key)
                 fs2, _, _ = run_family(small, drv, common.make_rng(0, 'shrink'), tier)
@@ -348,7 +354,7 @@ def run(env, res):
                 res.fail(kind, key, msg, small)
             else:
                 res.fail(kind, key, msg, case)
-        if len(res.failures) >= 10:
+        if len([f for f in res.failures if f.key != 'spec-tuple-typeerror']) >= 10:
             break
     subprocess_part(kept, 4 if tier == 'quick' else 20, res, hist)
     res.extra['histogram'] = hist
